@@ -101,7 +101,7 @@ check("C19", "invariant monitor on derived accessors after every step of parse/s
       "IsIPv4, IsIPv6, DecodedPort, Protocol/Scheme, Search/Query, Hash/Fragment, OpaquePath and IsSpecialScheme are recomputed from the primary components and the serialization and compared after every step.",
       TRUST_REL, "DESIGN.md §5 C19")
 check("C20", "resource monitor: fitted growth exponent of allocated bytes (MemStats, GC off), hook-counted parser work and thread CPU time over repetition families",
-      "For 60 repetition families and n = 2^10..2^14 (2^18 thorough) the log-log slope of deterministic cost measures (allocated bytes, parser steps + cursor moves) must stay below 1.35; thread CPU time "
+      "For 92 repetition families (one and two long components; ten under the relaxing parser options) and n = 2^10..2^14 (2^18 thorough) the log-log slope of deterministic cost measures (allocated bytes, parser steps + cursor moves) must stay below 1.35; thread CPU time "
       "only confirms (slope > 1.5, > 50 ms, twice), otherwise inconclusive. Wall-clock time is never used.",
       "Trusted base: Go runtime memory statistics and the counting hooks. Growth beyond the measured sizes or for unlisted fragments is out of reach.", "DESIGN.md §5 C20")
 
